@@ -49,13 +49,18 @@ COMPONENTS = {
     "stub": ["random.choice/sample/shuffle/... (SimRandom)", "clock: sys.monitoring line counter"],
 }
 
-_ENVS: Dict[Tuple[int, bool, str], jp.JSONPathEnvironment] = {}
+_ENVS: Dict[Any, jp.JSONPathEnvironment] = {}
 # the ways a user configures the limit (and the mode): all of them are "the environment's"
 CONFIG_MODES = ("class", "class", "instance", "inherited", "instance-over-class")
 
 
 def env_for(limit: int, nondet: bool, how: str = "class") -> jp.JSONPathEnvironment:
-    key = (limit, nondet, how)
+    """A fresh environment for every evaluation, built while the simulated generator is installed
+    (whatever randomness an environment sets up for itself at construction is part of the run).
+    The last 40 are kept alive, so environments with other limits and modes coexist in the process."""
+    key = (limit, nondet, how, len(_ENVS))
+    if len(_ENVS) > 40:
+        _ENVS.pop(next(iter(_ENVS)))
     if key not in _ENVS:
         name = f"Env_L{limit}_{'N' if nondet else 'D'}"
         if how == "instance":
@@ -441,9 +446,9 @@ def evaluate(sc: Dict[str, Any], sseed: int, profile: Dict[str, Any], feed: Opti
     gsize = len(sc["spec"]["graph"]) if "graph" in sc["spec"] else D.count_nodes(doc)
     factor = 1 if exp.get("max_nesting") != N.INF else min(L, 300)
     cap = max(300_000, 400 * (work + gsize * len(qast["segs"]) * factor))
-    env = env_for(L, sc["nondet"], sc.get("config", "class"))
     sim = simrandom.SimRandom(sseed, profile, feed)
     simrandom.install(sim)
+    env = env_for(L, sc["nondet"], sc.get("config", "class"))
     clock = StepClock(cap)
     obs: Dict[str, Any]
     plan = sc.get("plan")
